@@ -245,7 +245,12 @@ static void do_req (char **w, int n) {
     else printf (" leak=%d\n", leak ? 1 : 0);
 }
 
-/* kernel translation validation: call the real static kernels on scripted inputs */
+/* kernel translation validation: call the real static kernels on scripted inputs
+ * (HC_NO_KERN: fallback build without this table, used when a kernel named here no longer exists in the tree under
+ * test - the request streams through _job_exec and their property oracles must still run) */
+#ifdef HC_NO_KERN
+static void do_kern (char **w, int n) { (void) w; (void) n; puts ("bad-op"); }
+#else
 static void do_kern (char **w, int n) {
     long a[12]; int i, k = n - 2, rc = 0; m_msg_t m; struct munge_cred cs; const char *name = w[1];
     for (i = 0; i < k && i < 12; i++) a[i] = atol (w[2 + i]);
@@ -297,6 +302,7 @@ static void do_kern (char **w, int n) {
     m_msg_destroy (m);
     { conf_t old = conf; conf_defaults (); free (old); }
 }
+#endif
 
 #ifndef HC_NO_MAIN
 /* watchdog: a request that never completes (a wedged read, a lost wake-up) ends the run at that op instead of hanging the check */
